@@ -249,6 +249,12 @@ pub fn run_real(case: &ImportCase) -> Result<AuditsFile, String> {
     config.imports.insert("peer".into(), RemoteImport { url: us, exclude: case.exclude.clone(), criteria_map: cm });
     let audits = AuditsFile { criteria: case.local_criteria.clone(), wildcard_audits: SortedMap::new(), audits: SortedMap::new(), trusted: SortedMap::new() };
     let imports = ImportsFile { unpublished: SortedMap::new(), publisher: SortedMap::new(), audits: [("peer".to_owned(), case.lock.clone())].into_iter().collect() };
+    // order of the real command: `Store::acquire` validates the offline store before going online
+    match guarded(|| Store::mock(config.clone(), audits.clone(), imports.clone()).validate(mock_today(), false)) {
+        Ok(Ok(())) => {}
+        Ok(Err(e)) => return Err(format!("refused:{}", format!("{e:?}").chars().take(200).collect::<String>())),
+        Err(p) => return Err(format!("{}@validate", panic_class(&p))),
+    }
     match guarded(|| Store::mock_online(&cfg, config, audits, imports, &network, true)) {
         Ok(Ok(store)) => Ok(store.live_imports.unwrap().audits.remove("peer").unwrap()),
         Ok(Err(e)) => Err(format!("refused:{}", format!("{e:?}").chars().take(200).collect::<String>())),
@@ -465,6 +471,7 @@ pub fn check_case(r: &mut Report, d: &mut Driver, case: &ImportCase, tag: &str) 
         Err(e) if e.starts_with("refused") => "refused".to_owned(),
         Err(e) => e.clone(),
     };
+    let model = if model == "refused-by-validate" { "refused".to_owned() } else { model };
     let model_line = if let Some(rest) = model.strip_prefix("ok ") { format!("ok {}", canon_model(rest)) } else if model == "ok" { "ok ".to_owned() } else { model.clone() };
     let descr = format!("{line}\n--- cmap {:?} exclude {:?}\n{}", case.cmap, case.exclude, case.peers.iter().map(|p| p.toml()).collect::<Vec<_>>().join("\n=====\n"));
     r.corr("corr.import", &real_line, &model_line, &descr);
@@ -479,7 +486,7 @@ pub fn check_case(r: &mut Report, d: &mut Driver, case: &ImportCase, tag: &str) 
     // ---------------- oracles on the real result
     if let Err(e) = &real {
         if e.starts_with("panic") && prop == "C15" {
-            let site = if e.contains("implies-itself") || e.contains("dup-criteria") { "peer-criteria-table" } else if e.contains("unknown-criterion") { "criteria-map-target" } else { "other" };
+            let site = if e.contains("implies-itself") || e.contains("dup-criteria") { "peer-criteria-table" } else if e.contains("unknown-criterion") { "criteria-map-target" } else if case.lock.criteria.values().any(|c| c.description.is_none()) { "lock-criteria-without-description" } else { "other" };
             r.fail("oracle", &format!("C15/panic@{site}"), format!("acquiring the store with this peer data panics: {e}"), &descr);
         }
         return;
@@ -577,7 +584,8 @@ pub fn corpus(prop: &str) -> Vec<(String, ImportCase)> {
 pub fn run(r: &mut Report) {
     let mut d = Driver::spawn();
     let (shard, nshards) = shard();
-    r.rule = "import cases = (local criteria table, 1-2 raw peer files with their own criteria tables incl. unparseable / unknown-criteria / non-importable entries, criteria-map incl. built-in overrides, exclude list, lock); non-trivial = some peer entry uses a peer criterion that the criteria-map maps; distinct by hash of the encoded case".into();
+    let prev = if r.rule.is_empty() { String::new() } else { format!("{}; PLUS ", r.rule) };
+    r.rule = prev + "import cases = (local criteria table, 1-2 raw peer files with their own criteria tables incl. unparseable / unknown-criteria / non-importable entries, criteria-map incl. built-in overrides, exclude list, lock); non-trivial = some peer entry uses a peer criterion that the criteria-map maps; distinct by hash of the encoded case";
     let n = if r.thorough() { 24000 } else { 3000 } / nshards;
     let mut rng = Rng::new(r.seed.wrapping_add(shard.wrapping_mul(6700417)) ^ 0x1234);
     if shard == 0 {
@@ -605,7 +613,16 @@ pub fn run(r: &mut Report) {
                     }
                 }
                 lock.audits.retain(|_, l| !l.is_empty());
-                lock.criteria.clear();
+                // imports.lock keeps the (mapped) criteria with their descriptions; a hand-edited
+                // one may lack the description
+                if crng.chance(1, 2) {
+                    lock.criteria.clear();
+                } else if malformed_stream && crng.chance(1, 2) {
+                    for c in lock.criteria.values_mut() {
+                        c.description = None;
+                    }
+                    r.count("lock-criteria-without-description");
+                }
                 lock.trusted.clear();
                 case.lock = lock;
             }
